@@ -56,8 +56,17 @@ static std::unique_ptr<Mesh> gen_torus(Rng &r) {
     mb.SetAttributeValuesForFace(pos, FaceIndex(f), a, c, d); if (gen >= 0) { uint8_t v = (uint8_t)(f % 3); mb.SetPerFaceAttributeValueForFace(gen, FaceIndex(f), &v); } f++; }
   return mb.Finalize();
 }
+// many faces over very few points (duplicated / permuted faces): the connectivity takes far more bytes than the attributes
+static std::unique_ptr<Mesh> gen_many_faces(Rng &r) {
+  std::unique_ptr<Mesh> m(new Mesh()); int np = (int)r.range(3, 7), nf = (int)r.range(150, 500); m->set_num_points(np);
+  GeometryAttribute ga; ga.Init(GeometryAttribute::POSITION, nullptr, 3, DT_FLOAT32, false, 12, 0); int id = m->AddAttribute(ga, true, np);
+  for (int i = 0; i < np; i++) { float p[3] = {(float)(i % 3), (float)(i / 3) + 0.1f * (float)i, (float)((i * 5) % 4)}; m->attribute(id)->SetAttributeValue(AttributeValueIndex(i), p); }
+  for (int f = 0; f < nf; f++) { Mesh::Face fc; int a = (int)r.below(np), b = (a + 1 + (int)r.below(np - 1)) % np, c = (int)r.below(np); if (c == a || c == b) c = (std::max(a, b) + 1) % np; if (c == a || c == b) c = (c + 1) % np; fc[0] = PointIndex(a); fc[1] = PointIndex(b); fc[2] = PointIndex(c); m->AddFace(fc); }
+  return m;
+}
 static std::unique_ptr<Mesh> gen_mesh(Rng &r) {
   if (r.chance(12)) return gen_torus(r);
+  if (r.chance(8)) return gen_many_faces(r);
   TriangleSoupMeshBuilder mb; int w = (int)r.range(2, 6), h = (int)r.range(2, 6);
   std::vector<std::array<int, 3>> faces; auto id = [&](int x, int y) { return y * (w + 1) + x; };
   for (int y = 0; y < h; y++) for (int x = 0; x < w; x++) { if (r.chance(10)) continue; faces.push_back({id(x, y), id(x + 1, y), id(x + 1, y + 1)}); faces.push_back({id(x, y), id(x + 1, y + 1), id(x, y + 1)}); }
@@ -95,10 +104,12 @@ static std::unique_ptr<PointCloud> gen_pc(Rng &r) {
 }
 
 
-struct Opt { bool mesh; int method, speed, sub, qpos; bool builtin; int expl_dims = 0; };
+struct Opt { bool mesh; int method, speed, sub, qpos; bool builtin; int expl_dims = 0; bool nopred = false; };
 static void configure(Encoder &enc, const Opt &o) {
   // explicit quantization shared by all attributes of a type, with an origin of fewer dimensions than some attribute has components
   // (the missing origin components are zero by definition of the option vector, never leftovers of the heap)
+  // no prediction for the integer attributes: with raw (not entropy-coded) values the stream then ENDS with the last attribute's value bytes
+  if (o.nopred) { enc.SetAttributePredictionScheme(GeometryAttribute::GENERIC, PREDICTION_NONE); enc.SetAttributePredictionScheme(GeometryAttribute::COLOR, PREDICTION_NONE); }
   if (o.expl_dims > 0) { float origin[3] = {-1.f, 0.25f, -3.f}; enc.SetAttributeExplicitQuantization(GeometryAttribute::GENERIC, 12, o.expl_dims, origin, 80.f); }
   enc.SetEncodingMethod(o.method); enc.SetSpeedOptions(o.speed, o.speed);
   enc.SetAttributeQuantization(GeometryAttribute::POSITION, o.qpos); enc.SetAttributeQuantization(GeometryAttribute::TEX_COORD, 10); enc.SetAttributeQuantization(GeometryAttribute::NORMAL, 8);
@@ -133,7 +144,7 @@ static uint64_t battery(bool thorough, uint64_t seed, Out *o, long *count) {
     int nopt = thorough ? 4 : 3;
     for (int k = 0; k < nopt; k++) {
       Opt op; op.mesh = mesh; op.method = mesh ? (r.chance(70) ? MESH_EDGEBREAKER_ENCODING : MESH_SEQUENTIAL_ENCODING) : (r.chance(50) ? POINT_CLOUD_KD_TREE_ENCODING : POINT_CLOUD_SEQUENTIAL_ENCODING);
-      op.speed = (int)r.below(11); op.sub = r.chance(50) ? MESH_EDGEBREAKER_VALENCE_ENCODING : MESH_EDGEBREAKER_STANDARD_ENCODING; op.qpos = (int)r.range(8, 14); op.builtin = !r.chance(20); op.expl_dims = r.chance(35) ? (int)r.range(1, 3) : 0;
+      op.speed = (int)r.below(11); op.sub = r.chance(50) ? MESH_EDGEBREAKER_VALENCE_ENCODING : MESH_EDGEBREAKER_STANDARD_ENCODING; op.qpos = (int)r.range(8, 14); op.builtin = !r.chance(20); op.expl_dims = r.chance(35) ? (int)r.range(1, 3) : 0; op.nopred = r.chance(30);
       Encoder fresh; configure(fresh, op); EncoderBuffer eb1; if (!encode(fresh, *g, mesh, eb1)) continue;
       std::string tag = std::string(mesh ? "mesh" : "pc") + " method=" + S(op.method) + " speed=" + S(op.speed) + " sub=" + S(op.sub) + " q=" + S(op.qpos) + " builtin=" + S(op.builtin) + " geo#" + S(i);
       (*count)++;
